@@ -510,6 +510,12 @@ fn check_vtree_queries(t: &VT, evals: &mut u64) -> Option<(String, String)> {
 
 /// elimination orders: all permutations for small variable sets; identity, reversed and
 /// rotated-by-half for wide ones
+/// a vtree for a message (the whole text is in the replay file)
+fn short_vt(t: &VT) -> String {
+    let s = t.show();
+    if s.len() > 80 { format!("{} ... {} ({} leaves)", &s[..30], &s[s.len() - 30..], t.leaves().len()) } else { s }
+}
+
 fn elims_for(nv: usize) -> Vec<Vec<usize>> {
     if nv <= 8 {
         permutations(nv)
@@ -634,7 +640,32 @@ pub fn run(ctx: &Ctx) -> Report {
         trees.extend(vtrees_over(&[0, 1, 2, 3, 4, 5]));
         trees.extend(vtrees_over(&[5, 4, 3, 2, 1, 0]));
     }
-    let chunks: Vec<&[VT]> = trees.chunks(32).collect();
+    // large vtrees: 17 to 300 leaves around the powers of two (index, table and depth thresholds inside the
+    // manager), right-linear, left-linear, balanced, and balanced over a scrambled labelling
+    let mut big_trees: Vec<VT> = Vec::new();
+    if !disabled("bigvtrees") {
+        use crate::props::sddmid::{balanced, left_linear, right_linear};
+        for &n in ctx.tier.pick(vec![33usize, 65, 129, 130, 200, 256, 257], vec![17, 31, 32, 33, 63, 64, 65, 127, 128, 129, 130, 200, 255, 256, 257, 300]).iter() {
+            let id: Vec<usize> = (0..n).collect();
+            let scr: Vec<usize> = (0..n).map(|i| (i * 7 + 3) % n).collect();
+            let scr_ok = {
+                let mut t = scr.clone();
+                t.sort();
+                t == id
+            };
+            big_trees.push(right_linear(&id));
+            big_trees.push(left_linear(&id));
+            big_trees.push(balanced(&id));
+            if scr_ok {
+                big_trees.push(balanced(&scr));
+            }
+        }
+    }
+    rep.add_extra("large_vtrees", big_trees.len() as u64);
+    let nsmall = trees.len();
+    trees.extend(big_trees);
+    let mut chunks: Vec<&[VT]> = trees[..nsmall].chunks(32).collect();
+    chunks.extend(trees[nsmall..].chunks(1));
     let vt = par_run(ctx, &chunks, |_, chunk| {
         let mut r = Report::default();
         r.exhaustive = true;
@@ -647,11 +678,11 @@ pub fn run(ctx: &Ctx) -> Report {
             }
             let mut ev = 0;
             if let Some((k, w)) = check_vtree(t, &mut ev) {
-                r.violation(format!("wellformed:{}", k), format!("vtree {}: {}", t.show(), w), json!({"kind": "vtree", "vtree": t.show()}));
+                r.violation(format!("wellformed:{}", k), format!("vtree {}: {}", short_vt(t), w), json!({"kind": "vtree", "vtree": t.show()}));
             }
             if t.leaves().len() <= 4 && !crate::core::disabled("vtq") {
                 if let Some((k, w)) = check_vtree_queries(t, &mut ev) {
-                    r.violation(format!("wellformed:{}", k), format!("vtree {}: {}", t.show(), w), json!({"kind": "vtree", "vtree": t.show()}));
+                    r.violation(format!("wellformed:{}", k), format!("vtree {}: {}", short_vt(t), w), json!({"kind": "vtree", "vtree": t.show()}));
                 }
                 r.add_extra("vtrees_with_query_sequences_on_fresh_managers", 1);
             }
